@@ -7,6 +7,7 @@ import AcraModel.KeystoreSec.MigrateV1Lemmas
 import AcraModel.KeystoreSec.V1NamesLemmas
 import AcraModel.KeystoreSec.V1WriteLog
 import AcraModel.Generated.V1Export
+import AcraModel.KeystoreSec.ExportV1Codec
 /-!
 # C18 — exported keys import to an identical keystore and stay confidential in transit
 
@@ -392,6 +393,19 @@ theorem v1_reject_before_write (e : Env) (cd : ExportV1.Codec) (ν : ExportV1.No
     (h : openBundle e cd b = none) : ExportV1.importBundle e cd ν T b = (T.files, false) := by
   simp [ExportV1.importBundle, h]
 
+/-- **The export contexts are the key store's own, for every valid client.** For a client id that
+`keystore.ValidateID` accepts – whatever it contains, also `_storage`, `_hmac`, `_sym` somewhere
+inside – `Export`/`Import` derive from the names of the client's storage private key, storage
+symmetric key and HMAC key files exactly the key context the key store seals them under
+(`V1WriteLog.Op.ctx`): the suffix is cut off the end, once. Together with
+`v1_export_import_identity` this makes the imported files readable by the target key store's own
+getters. -/
+theorem v1_export_context_client (id : Bytes) (hv : validateID id = true) :
+    ctxOfName (storageName id) = V1WriteLog.Op.ctx (.genDataKeys id [] []) ∧
+    ctxOfName (symName id) = V1WriteLog.Op.ctx (.genSymKey id []) ∧
+    ctxOfName (hmacName id) = V1WriteLog.Op.ctx (.genHmacKey id []) :=
+  ctxOfName_client id hv
+
 /-- **The export contexts are the key store's own (repairs 45).** For the poison symmetric key and
 for a rotated poison key pair the context `Export`/`Import` derive from the file name is the one the
 key store seals these keys with (`V1WriteLog.Op.ctx`) … -/
@@ -480,6 +494,19 @@ theorem migration_fused_id_pinned_counterexample :
 end V1
 
 /-! ## non-vacuity: the hypotheses are jointly satisfiable (Box instance, a trivial codec) -/
+
+/-- non-vacuity (v1): a codec with the round-trip law exists, and a one-key store exports under the
+Box instance -/
+example : ExportV1.simpleCodec.Ok := ExportV1.simpleCodec_ok
+
+example :
+    let files : CrossClient.Files := match boxOps.enc [1] (Path.ofStr "client") [7] (List.replicate 12 0) with
+      | some ct => [(V1.symName (Path.ofStr "client"), ct)]
+      | none => []
+    ExportV1.exportRecords ⟨boxOps, fun _ => true⟩ ⟨[1], files⟩ [] .allKeys = some [(V1.symName (Path.ofStr "client"), [7])] := by
+  decide
+
+example : V1.validateID (Path.ofStr "db_storage_eu") = true := by decide
 
 example : SealLaws boxOps ∧ SealCommit boxOps ∧ HashInj boxOps := ⟨Box.sealLaws, Box.sealCommit, Box.hashInj⟩
 
